@@ -9,24 +9,57 @@ COQ_DEPS = []
 PROFILES = ["debug"]
 CORR_IMPORT = "From RlibV Require Import C15.Model C15.Corr.\nOpen Scope Z_scope."
 AUDIT_IMPORT = ("From Coq Require Import ZArith NArith List Bool Sorting.Permutation Sorting.Sorted.\nImport ListNotations.\n"
-                "From RlibV Require Import C15.Model C15.Corr C15.Properties.\n")
+                "From RlibV Require Import C15.Model C15.Spec C15.Corr C15.ProofsSmall C15.Properties.\n")
 EXPLAIN = "explain"
 AXIOM_ALLOW = []
 SHARD = 1200
 THEOREMS = [
-    ("c15_submask_succ", "forall w x s : N, (s <> 0 -> s < 2 ^ w -> N.land s x = s -> exists n, next_submask w x s = Some (s, n) /\\ "
-                         "N.land n x = n /\\ n < s /\\ forall u, N.land u x = u -> u < s -> u <= n)%N"),
-    ("c15_supermask_succ", "forall w x s : N, (x < 2 ^ w -> s < 2 ^ w -> s <> 2 ^ w - 1 -> N.land s x = x -> exists n, "
-                           "next_supermask w x s = Some (s, n) /\\ N.land n x = x /\\ s < n /\\ n < 2 ^ w /\\ "
-                           "forall u, N.land u x = x -> s < u -> n <= u)%N"),
-    ("c15_mask_stop", "forall w x : N, next_submask w x 0 = None /\\ next_supermask w x (2 ^ w - 1) = None"),
-    ("c15_submasks_enumeration", "forall w x : N, (w <= 128 -> x < 2 ^ w -> exists l, iter_submasks w x = Some l /\\ "
-                                 "(forall u, In u l <-> N.land u x = u) /\\ StronglySorted (fun a b => b < a) l /\\ NoDup l /\\ "
-                                 "hd 1 l = x /\\ last l 1 = 0)%N"),
-    ("c15_supermasks_enumeration", "forall w x : N, (w <= 128 -> x < 2 ^ w -> exists l, iter_supermasks w x = Some l /\\ "
-                                   "(forall u, In u l <-> (N.land u x = x /\\ u < 2 ^ w)) /\\ StronglySorted N.lt l /\\ NoDup l /\\ "
-                                   "hd 0 l = x /\\ last l 0 = 2 ^ w - 1)%N"),
-    ("c15_masks_terminate", "forall w x : N, (w <= 128 -> x < 2 ^ w -> iter_submasks w x <> None /\\ iter_supermasks w x <> None)%N"),
+    ('c15_submask_succ',
+     'forall w x s : N, (s <> 0 -> s < 2 ^ w -> N.land s x = s -> exists n, next_submask w x s = Some (s, n) /\\ N.land n x = n /\\ n < s /\\ forall u, N.land u x = u -> u < s -> u <= n)%N'),
+    ('c15_supermask_succ',
+     'forall w x s : N, (x < 2 ^ w -> s < 2 ^ w -> s <> 2 ^ w - 1 -> N.land s x = x -> exists n, next_supermask w x s = Some (s, n) /\\ N.land n x = x /\\ s < n /\\ n < 2 ^ w /\\ forall u, N.land u x = x -> s < u -> n <= u)%N'),
+    ('c15_mask_stop',
+     'forall w x : N, next_submask w x 0 = None /\\ next_supermask w x (2 ^ w - 1) = None'),
+    ('c15_submasks_enumeration',
+     'forall w x : N, (w <= 128 -> x < 2 ^ w -> exists l, iter_submasks w x = Some l /\\ (forall u, In u l <-> N.land u x = u) /\\ StronglySorted (fun a b => b < a) l /\\ NoDup l /\\ hd 1 l = x /\\ last l 1 = 0)%N'),
+    ('c15_supermasks_enumeration',
+     'forall w x : N, (w <= 128 -> x < 2 ^ w -> exists l, iter_supermasks w x = Some l /\\ (forall u, In u l <-> (N.land u x = x /\\ u < 2 ^ w)) /\\ StronglySorted N.lt l /\\ NoDup l /\\ hd 0 l = x /\\ last l 0 = 2 ^ w - 1)%N'),
+    ('c15_masks_terminate',
+     'forall w x : N, (w <= 128 -> x < 2 ^ w -> iter_submasks w x <> None /\\ iter_supermasks w x <> None)%N'),
+    ('c15_submasks_filter',
+     'forall w x : N, (w <= 128 -> x < 2 ^ w -> iter_submasks w x = Some (filter (fun u => N.land u x =? u) (rev (all_below w))))%N'),
+    ('c15_supermasks_filter',
+     'forall w x : N, (w <= 128 -> x < 2 ^ w -> iter_supermasks w x = Some (filter (fun u => (N.land u x =? x) && (u <? 2 ^ w)) (all_below w)))%N'),
+    ('c15_next_perm_is_permutation',
+     '(forall d : list Z, Permutation d (snd (next_permutation d)))%Z'),
+    ('c15_next_perm_greater',
+     '(forall d : list Z, fst (next_permutation d) = true -> lex_lt d (snd (next_permutation d)))%Z'),
+    ('c15_next_perm_minimal',
+     '(forall d : list Z, fst (next_permutation d) = true -> forall p : list Z, Permutation d p -> ~ (lex_lt d p /\\ lex_lt p (snd (next_permutation d))))%Z'),
+    ('c15_next_perm_wrap',
+     '(forall d : list Z, (fst (next_permutation d) = false <-> StronglySorted Z.ge d) /\\ (StronglySorted Z.ge d -> snd (next_permutation d) = rev d /\\ StronglySorted Z.le (snd (next_permutation d)) /\\ snd (next_permutation d) = sort d))%Z'),
+    ('c15_iter_permutations',
+     '(forall d : list Z, exists l, iter_permutations d = Some l /\\ StronglySorted lex_lt l /\\ (forall p, In p l <-> Permutation d p) /\\ NoDup l /\\ hd [] l = sort d)%Z'),
+    ('c15_sorted_listing_unique',
+     '(forall l1 l2 : list (list Z), StronglySorted lex_lt l1 -> StronglySorted lex_lt l2 -> (forall u, In u l1 <-> In u l2) -> l1 = l2)%Z'),
+    ('c15_iter_permutations_small',
+     '(forallb iter_matches (seqs_upto [0; 1; 2] 7) = true)%Z'),
+    ('c15_next_permutation_small',
+     '(forallb next_matches (seqs_upto [0; 1; 2] 7) = true)%Z'),
+    ('c15_neighbours_4',
+     '(forall n m i j : Z, iter_neighbours_4 n m i j = filter (in_grid n m) [(i, j + 1); (i - 1, j); (i, j - 1); (i + 1, j)] /\\ (forall a b, In (a, b) (iter_neighbours_4 n m i j) <-> 0 <= a < n /\\ 0 <= b < m /\\ Z.abs (a - i) + Z.abs (b - j) = 1) /\\ NoDup (iter_neighbours_4 n m i j))%Z'),
+    ('c15_neighbours_4d',
+     '(forall n m i j : Z, iter_neighbours_4d n m i j = filter (in_grid n m) [(i - 1, j + 1); (i - 1, j - 1); (i + 1, j - 1); (i + 1, j + 1)] /\\ (forall a b, In (a, b) (iter_neighbours_4d n m i j) <-> 0 <= a < n /\\ 0 <= b < m /\\ Z.abs (a - i) = 1 /\\ Z.abs (b - j) = 1) /\\ NoDup (iter_neighbours_4d n m i j))%Z'),
+    ('c15_neighbours_8',
+     '(forall n m i j : Z, iter_neighbours_8 n m i j = filter (in_grid n m) [(i, j + 1); (i - 1, j + 1); (i - 1, j); (i - 1, j - 1); (i, j - 1); (i + 1, j - 1); (i + 1, j); (i + 1, j + 1)] /\\ (forall a b, In (a, b) (iter_neighbours_8 n m i j) <-> 0 <= a < n /\\ 0 <= b < m /\\ Z.max (Z.abs (a - i)) (Z.abs (b - j)) = 1) /\\ NoDup (iter_neighbours_8 n m i j))%Z'),
+    ('c15_submasks_count',
+     '(forall w x : N, (w <= 128 -> x < 2 ^ w -> exists l, iter_submasks w x = Some l /\\ N.of_nat (length l) = 2 ^ popcount x)%N)%Z'),
+    ('c15_supermasks_count',
+     '(forall w x : N, (w <= 128 -> x < 2 ^ w -> exists l, iter_supermasks w x = Some l /\\ N.of_nat (length l) = 2 ^ (w - popcount x))%N)%Z'),
+    ('c15_iter_permutations_enumerated',
+     '(forall d : list Z, iter_permutations d = Some (all_arrangements d))%Z'),
+    ('c15_model_implies_spec',
+     '(forall c : case, in_scope c -> model_check c = true -> spec_check c = true)%Z'),
 ]
 RULE = ("masks: every u8 and i8 mask for both iterators (thorough: also every u16/i16 mask with at most 6 free bits and samples up "
         "to 10), structured and random masks of the 32/64/128-bit and pointer-sized types with at most 10 (thorough 12) free bits "
@@ -58,8 +91,16 @@ def harness_line(c):
     if op == "np":
         return " ".join([op] + [str(v) for v in c["d"]])
     if op == "ip":
-        return " ".join([op, str(math.factorial(len(c["d"])) + 1)] + [str(v) for v in c["d"]])
+        return " ".join([op, str(n_arrangements(c["d"]) + 1)] + [str(v) for v in c["d"]])
     return "%s %d %d %d %d" % (op, c["n"], c["m"], c["i"], c["j"])
+
+
+def n_arrangements(d):
+    """number of distinct arrangements of the multiset d (only used to cut a runaway iterator one item too late)"""
+    r = math.factorial(len(d))
+    for v in set(d):
+        r //= math.factorial(d.count(v))
+    return r
 
 
 def z(v):
@@ -234,6 +275,14 @@ def gen_perms(rng, tier):
             d = list(range(1, 7))
             rng.shuffle(d)
             cases.append({"op": "np", "d": d})
+    else:
+        for d in itertools.permutations(range(1, 8)):
+            if rng.chance(1, 4):
+                cases.append({"op": "np", "d": list(d)})
+        for _ in range(150):
+            d = list(range(1, 9))
+            rng.shuffle(d)
+            cases.append({"op": "np", "d": d})
     # many duplicates, longer
     nd = 60 if tier == "quick" else 1500
     for _ in range(nd):
@@ -316,6 +365,82 @@ def shrink(c):
             if 0 <= w < v:
                 out.append(dict(c, **{key: w}))
     return out
+
+
+# ----------------------------------------------------------------------------- implementation-level search
+def extra(ctx, known):
+    """Exhaustive 16-bit masks and large wide masks, checked inside the executor (items are not printed): count =
+    2^free, every item a sub/supermask, strictly monotone, first = x, last = 0 / all-ones.  These are consequences of
+    c15_submasks_enumeration / c15_supermasks_enumeration / c15_*_count observed directly on the implementation; a
+    failure is replayed as an ordinary case (full output, model and specification in Coq)."""
+    import _driver
+    rng = _driver.Rng(ctx.seed).fork("C15-extra")
+    cases = []
+    for ty in ("u16", "i16"):
+        for x in range(1 << 16):
+            cases.append({"op": "sub", "ty": ty, "x": x})
+            cases.append({"op": "sup", "ty": ty, "x": x})
+    nbig = 40 if ctx.tier == "quick" else 400
+    for _ in range(nbig):
+        ty = rng.choice(WIDE)
+        w = WIDTH[ty]
+        k = rng.range(11, 18 if ctx.tier == "quick" else 21)
+        pos = list(range(w))
+        rng.shuffle(pos)
+        free = sum(1 << p for p in pos[:k]) | (1 << (w - 1) if rng.chance(1, 2) else 0)
+        cases.append(mask_case(rng.choice(["sub", "sup"]), ty, free))
+    lines = ["%sck %s %d %d" % (c["op"], c["ty"], c["x"], (1 << free_bits(c)) + 1) for c in cases]
+    outs = _driver.run_impl(ctx.bins[PROFILES[0]], lines)
+    bad, items = [], 0
+    for c, o in zip(cases, outs):
+        t = o.split()
+        w = WIDTH[c["ty"]]
+        want_last = 0 if c["op"] == "sub" else (1 << w) - 1
+        good = (len(t) == 5 and t[0] == "K" and int(t[1]) == 1 << free_bits(c) and t[2] == "1"
+                and t[3] == str(c["x"]) and t[4] == str(want_last))
+        items += int(t[1]) if len(t) == 5 and t[1].isdigit() else 0
+        if not good:
+            bad.append((c, o))
+    # permutations of 7 and 8 distinct elements (itertools.permutations of a sorted input is the lexicographic listing)
+    pbad, pcount = [], 0
+    for n in (7, 8):
+        listing = [list(q) for q in itertools.permutations(range(1, n + 1))]
+        plines = ["np " + " ".join(map(str, q)) for q in listing]
+        pouts = _driver.run_impl(ctx.bins[PROFILES[0]], plines)
+        pcount += len(plines)
+        for k, (q, o) in enumerate(zip(listing, pouts)):
+            want = "R 1 " + " ".join(map(str, listing[k + 1])) if k + 1 < len(listing) else "R 0 " + " ".join(map(str, listing[0]))
+            if o.strip() != want:
+                pbad.append(({"op": "np", "d": q}, o))
+        d0 = list(range(n, 0, -1))
+        o = _driver.run_impl(ctx.bins[PROFILES[0]], ["ip %d %s" % (len(listing) + 1, " ".join(map(str, d0)))])[0]
+        pcount += 1
+        if o.strip() != "R " + " ".join(" ".join(map(str, q)) + " ;" for q in listing):
+            pbad.append(({"op": "ip", "d": d0}, o[:200]))
+    cov_perm = {"what": "next_permutation on every permutation of 7 and of 8 distinct elements and iter_permutations on both sets, "
+                        "compared with itertools.permutations of the sorted input (the lexicographic listing)",
+                "cases": pcount, "failures": len(pbad)}
+    cov = {"impl_search_permutations": cov_perm,
+           "impl_search": {"what": "every u16 and i16 mask (both iterators) and %d masks of the wider types with 11-%d free "
+                                   "bits, checked in the executor: count = 2^free, all items sub/supermasks, strictly "
+                                   "monotone, first = x, last = 0 / all-ones" % (nbig, 17 if ctx.tier == "quick" else 20),
+                           "cases": len(cases), "items_iterated": items, "failures": len(bad)}}
+    viol = []
+    if bad:
+        bad.sort(key=lambda co: (free_bits(co[0]), WIDTH[co[0]["ty"]]))
+        c, o = bad[0]
+        payload = {"case": c, "impl_summary": o,
+                   "what": "implementation-level search: the iterator's output on this mask has the wrong length, is not "
+                           "strictly monotone, contains a non-sub/supermask or has the wrong end points "
+                           "(summary line: K count ok first last)", "other_failing_cases": len(bad) - 1}
+        viol.append({"name": "impl-%s-%s-%d" % (c["op"], c["ty"], c["x"]), "payload": payload, "nofail": False})
+    if pbad:
+        c, o = pbad[0]
+        viol.append({"name": "impl-%s-%s" % (c["op"], "-".join(map(str, c["d"]))),
+                     "payload": {"case": c, "impl_observation": o, "other_failing_cases": len(pbad) - 1,
+                                 "what": "implementation-level search: not the lexicographic successor / listing of this sequence"},
+                     "nofail": False})
+    return {"coverage": cov, "violations": viol, "known": []}
 
 
 MANIFEST = {
